@@ -7,6 +7,8 @@ from facts import strip_generics
 
 W_FMT = re.compile(r'dst\.write_fmt\(let args = \((\w+)\); let args = \[Argument::new_display\(args\.0\)\]; Arguments::new\(".*?",args\)\)', re.S)
 W_VEC = re.compile(r"Ok\(dst\.extend\((\w+)(?:\.to_string\(\))?\)\)")
+W_VEC_IN = re.compile(r"^dst\.extend\((\w+)(?:\.to_string\(\)|\.encode_utf8\([^()]*\))?\)$")
+W_FMT_IN = re.compile(r'^dst\.write_fmt\(let args = \((\w+)\); let args = \[Argument::new_display\(args\.0\)\]; Arguments::new\(".*?",args\)\)$', re.S)
 
 
 def _step_arms(fn):
@@ -45,8 +47,10 @@ def writers_agree(run, ctx):
             for p in S.paths_of(arm["body"], combinators=True):
                 if p.exit == "try-err":
                     continue
-                val = wrx.sub(lambda m: "W(%s)" % m.group(1), p.val or "")
-                writes = [wrx.sub(lambda m: "W(%s)" % m.group(1), ev.a) for ev in p.events if ev.kind == "call" and wrx.search(ev.a or "")]
+                # what is written on this path (the write primitive applied to ..), wherever the value goes
+                inner = W_VEC_IN if wrx is W_VEC else W_FMT_IN
+                writes = ["W(%s)" % inner.match(ev.a).group(1) for ev in p.events if ev.kind == "call" and inner.match(ev.a or "")]
+                val = "Err" if (p.val or "").startswith("Err(") else "-"
                 dec = []
                 feasible_ = True
                 known = {}
@@ -61,6 +65,7 @@ def writers_agree(run, ctx):
                             lets_[e2.a] = e2.b
                     if scr in lets_:
                         scr = H.subst_lets(scr, lets_)
+                    scr = re.sub(r"\.ok\(\)$", "", scr or "")      # Ok(x) / Err of a Result is the same decision as Some(x) / None of its .ok()
                     bnd = re.sub(r"^\w+\((\w+)\)$", r"\1", bound or "")
                     if scr == "None" or (scr or "").startswith("Some("):
                         # a literal decides itself
@@ -87,18 +92,18 @@ def writers_agree(run, ctx):
                 if pm:
                     names[pm.group(1)] = "ARG"
                 ren = lambda t: re.sub(r"(?<![.\w])(%s)(?![\w(])" % "|".join(map(re.escape, names)), lambda m: names[m.group(1)], t) if names else t
-                res.add((tuple((ren(s_ or ""), k_) for s_, k_, _ in dec), ren(val), tuple(ren(w_) for w_ in writes if w_ != val)))
+                res.add((tuple((ren(s_ or ""), k_) for s_, k_, _ in dec), val, tuple(ren(w_) for w_ in writes)))
             out[v] = res
         return out
 
     want = {
-        "Char": {((), "W(ARG)", ())},
-        "Error": {((), "Ok(())", ())},
-        "GroupNum": {((("captures.get(ARG)", "some"),), "W(m0)", ()), ((("captures.get(ARG)", "none"),), "Ok(())", ())},
-        "GroupName": {((("captures.name(ARG)", "some"),), "W(m0)", ()),
-                      ((("captures.name(ARG)", "none"), ("ARG.parse().ok()", "some"), ("captures.get(m1)", "some")), "W(m2)", ()),
-                      ((("captures.name(ARG)", "none"), ("ARG.parse().ok()", "some"), ("captures.get(m1)", "none")), "Ok(())", ()),
-                      ((("captures.name(ARG)", "none"), ("ARG.parse().ok()", "none")), "Ok(())", ())},
+        "Char": {((), "-", ("W(ARG)",))},
+        "Error": {((), "-", ())},
+        "GroupNum": {((("captures.get(ARG)", "some"),), "-", ("W(m0)",)), ((("captures.get(ARG)", "none"),), "-", ())},
+        "GroupName": {((("captures.name(ARG)", "some"),), "-", ("W(m0)",)),
+                      ((("captures.name(ARG)", "none"), ("ARG.parse()", "some"), ("captures.get(m1)", "some")), "-", ("W(m2)",)),
+                      ((("captures.name(ARG)", "none"), ("ARG.parse()", "some"), ("captures.get(m1)", "none")), "-", ()),
+                      ((("captures.name(ARG)", "none"), ("ARG.parse()", "none")), "-", ())},
     }
 
     def norm_clo(o):
@@ -119,12 +124,13 @@ def writers_agree(run, ctx):
             continue
         c = H.canon(fn["body"])
         n += 1
-        if not re.search(r"self\.write_expansion(_vec)?\(cursor,template,captures\)\.expect\(", c):
+        delegates = name.endswith("::expansion") and re.search(r"self\.append_expansion\((\w+),template,captures\)", c) is not None
+        if not delegates and not re.search(r"self\.write_expansion(_vec)?\(cursor,template,captures\)\.expect\(", c):
             run.violation(fam, label, name, H.where(fn), "%s must expand through write_expansion(_vec)(cursor, template, captures), found %s" % (name, c[:160]))
         # ... on every path: a shortcut that copies the template (or anything else) without scanning it with this
         # expander's own syntax makes the entry points disagree (e.g. a `$`-only test in front of the Python expander)
         for p in S.paths_of(fn["body"]):
-            if p.exit in ("fall", "return") and not any(ev.kind == "call" and re.match(r"^self\.write_expansion(_vec)?\(", ev.a or "") for ev in p.events):
+            if p.exit in ("fall", "return") and not any(ev.kind == "call" and re.match(r"^self\.(write_expansion(_vec)?|append_expansion)\(", ev.a or "") for ev in p.events):
                 run.violation(fam, label, name + "/shortcut", H.where(fn), "%s has a path that produces its result without write_expansion(_vec): %s" % (name, p.show()[:160]))
                 break
     fn = S.get_fn(run, ctx, "Captures::expand", fam, label)
@@ -237,14 +243,112 @@ def scanner_shape(run, ctx):
         alts = [s] if isinstance(s, str) else s
         if not any(H.find_pat(c, a_) for a_ in alts):
             run.violation(fam, label, key, H.where(fn), "Expander::exec: %s; `%s` not found in %s" % (what, alts[0], c[:200]))
-    whole = ("let {it} = %s.chars(); while let Some({c}) = {it}.next() {if ({c} == self.sub_char) {let {tail} = {it}; "
-             "let {skip} = if {tail}.starts_with(self.sub_char) {%s(Step::Char(self.sub_char))?; 1} "
-             "else {if let Some(({id},{sk1})) = parse_id({tail},self.open,self.close,false).or_else(|| if self.allow_undelimited_name {parse_id({tail},\"\",\"\",false)} else {None}) {%s(Step::GroupName({id}))?; {sk1}} "
-             "else {if let Some(({sk2},{num})) = parse_decimal({tail},0) {%s(Step::GroupNum({num}))?; {sk2}} "
-             "else {%s(Step::Error)?; %s(Step::Char(self.sub_char))?; 0}}}; "
-             "{it} = {it}[{skip}..].chars()} else {%s(Step::Char({c}))?}}; Ok(())") % (T, F, F, F, F, F, F)
-    # `tail` is `iter.as_str()` taken before the decision and `iter` is untouched in between: resuming from either is the same
-    need([whole, whole.replace("{it} = {it}[{skip}..].chars()", "{it} = {tail}[{skip}..].chars()")], "scanner", "the template is scanned char by char; at the substitution character the alternatives are tried in the documented order (doubled character -> one literal char and skip exactly 1 byte; delimited name, then if allowed the longest undelimited identifier; decimal group number; otherwise the character is copied verbatim after reporting the malformed reference) and scanning resumes `skip` bytes into the tail")
+    # path-based: one iteration of the scanning loop, classified by the decisions it took
+    what = ("the template is scanned char by char; at the substitution character the alternatives are tried in the documented order "
+            "(doubled character -> one literal char and skip exactly 1 byte; delimited name, then if allowed the longest undelimited identifier; "
+            "decimal group number; otherwise the character is copied verbatim after reporting the malformed reference) and scanning resumes `skip` bytes into the tail")
+    loops = [nd for nd in H.walk(fn["body"]) if nd.get("k") == "While"]
+    n += 1
+    bad = None
+    classes = {"plain": 0, "doubled": 0, "name": 0, "bare-name": 0, "number": 0, "malformed": 0}
+    if len(loops) != 1 or H.peel(loops[0]["cond"]).get("k") != "LetCond" or H.canon(H.peel(loops[0]["cond"])["init"]) not in ("iter.next()",) and False:
+        bad = "no single `while let Some(c) = iter.next()` loop"
+    else:
+        cnd = H.peel(loops[0]["cond"])
+        mc = re.match(r"^Some\((\w+)\)$", H.pat_canon(cnd["pat"]))
+        mi = re.match(r"^(\w+)\.next\(\)$", H.canon(cnd["init"]))
+        if not mc or not mi:
+            bad = "loop header is not `while let Some(c) = <iter>.next()`"
+        else:
+            C_, IT = mc.group(1), mi.group(1)
+            for p in S.paths_of(loops[0]["body"], combinators=True):
+                if p.exit == "try-err":
+                    continue
+                sm = S.Summary(p, ("%s(" % F,))
+                lets_ = {ev.a: ev.b for ev in p.events if ev.kind == "let" and re.match(r"^\w+$", ev.a or "") and ev.b in (IT,)}
+                sub = [tr for t, tr, _, _ in sm.conds if t in ("(%s == self.sub_char)" % C_, "(self.sub_char == %s)" % C_)]
+                if not sub:
+                    bad = "an iteration does not compare the character with the substitution character"
+                    break
+                fcalls = [c_ for c_ in sm.calls]
+                resume = sm.final.get(IT)
+                if not sub[-1]:
+                    if fcalls != ["%s(Step::Char(%s))" % (F, C_)] or resume is not None:
+                        bad = "an ordinary character must be copied as it is (found %s)" % fcalls
+                        break
+                    classes["plain"] += 1
+                    continue
+                # decisions, in the order they were taken
+                order = []
+                for i_, ev in enumerate(p.events):
+                    t = H.subst_lets(ev.a or "", lets_) if ev.kind == "cond" else None
+                    if ev.kind == "cond" and t in ("%s.starts_with(self.sub_char)" % IT,):
+                        order.append(("doubled", bool(ev.b), None, i_))
+                    if ev.kind == "cond" and t == "self.allow_undelimited_name":
+                        order.append(("allow", bool(ev.b), None, i_))
+                for i_, kind, bound in S.opt_outcomes(p, "{*x}"):
+                    ev = p.events[i_]
+                    scr = H.subst_lets((ev.b if ev.kind in ("letcond", "let", "let-else") else ev.a) or "", lets_)
+                    nm = {"parse_id(%s,self.open,self.close,false)" % IT: "name", 'parse_id(%s,"","",false)' % IT: "bare-name", "parse_decimal(%s,0)" % IT: "number"}.get(scr)
+                    if nm:
+                        order.append((nm, kind == "some", bound, i_))
+                order.sort(key=lambda x: x[3])
+                # a decision repeated on the same value (e.g. `.or_else(..)` followed by `if let Some(..)` on its
+                # result) counts once; contradicting itself makes the path infeasible
+                dedup, seen_, feas_ = [], {}, True
+                for a_, b_, c_, i_ in order:
+                    if a_ in seen_:
+                        if seen_[a_] != b_:
+                            feas_ = False
+                        elif c_ and b_:
+                            dedup = [(x0, x1, c_ if x0 == a_ else x2, x3) for x0, x1, x2, x3 in dedup]
+                        continue
+                    seen_[a_] = b_
+                    dedup.append((a_, b_, c_, i_))
+                if not feas_:
+                    continue
+                # a literal None / Some(..) scrutinee decides itself
+                lit_bad = False
+                for i_, kind, bound in S.opt_outcomes(p, "{*x}"):
+                    ev = p.events[i_]
+                    scr0 = (ev.b if ev.kind in ("letcond", "let", "let-else") else ev.a) or ""
+                    if (scr0 == "None" and kind == "some") or (scr0.startswith("Some(") and kind == "none"):
+                        lit_bad = True
+                if lit_bad:
+                    continue
+                order = dedup
+                seq = [(a_, b_) for a_, b_, _, _ in order]
+                want_order = ["doubled", "name", "allow", "bare-name", "number"]
+                if [a_ for a_, _ in seq] != [x for x in want_order if x in [a_ for a_, _ in seq]] or not seq or seq[0][0] != "doubled":
+                    bad = "the alternatives are not tried in the documented order (found %s)" % seq
+                    break
+                d = dict(seq)
+                m_res = re.match(r"^(?:%s)\[(.*)\.\.\]\.chars\(\)$" % re.escape(IT), H.subst_lets(resume or "", lets_))
+                skip = m_res.group(1) if m_res else None
+                bnd = {a_: c_ for a_, b_, c_, _ in order if b_ and c_}
+                if d["doubled"]:
+                    ok_, cl = fcalls == ["%s(Step::Char(self.sub_char))" % F] and skip == "1" and len(seq) == 1, "doubled"
+                elif d.get("name") or (d.get("name") is False and d.get("allow") and d.get("bare-name")):
+                    cl = "name" if d.get("name") else "bare-name"
+                    mb = re.match(r"^Some\(\((\w+),(\w+)\)\)$", bnd.get(cl, ""))
+                    ok_ = bool(mb) and fcalls == ["%s(Step::GroupName(%s))" % (F, mb.group(1))] and skip == mb.group(2) and "number" not in d
+                elif d.get("name") is False and (d.get("allow") is False or d.get("bare-name") is False) and d.get("number"):
+                    cl = "number"
+                    mb = re.match(r"^Some\(\((\w+),(\w+)\)\)$", bnd.get("number", ""))
+                    ok_ = bool(mb) and fcalls == ["%s(Step::GroupNum(%s))" % (F, mb.group(2))] and skip == mb.group(1)
+                elif d.get("name") is False and (d.get("allow") is False or d.get("bare-name") is False) and d.get("number") is False:
+                    cl = "malformed"
+                    ok_ = fcalls == ["%s(Step::Error)" % F, "%s(Step::Char(self.sub_char))" % F] and skip == "0"
+                else:
+                    ok_, cl = False, "?"
+                if not ok_:
+                    bad = "wrong outcome for the decisions %s: steps %s, resume after %s byte(s)" % (seq, fcalls, skip)
+                    break
+                classes[cl] += 1
+            if bad is None and min(classes.values()) < 1:
+                bad = "missing outcome(s): %s" % classes
+    if bad:
+        run.violation(fam, label, "scanner", H.where(fn), "Expander::exec: %s; %s" % (what, bad))
     es = S.get_fn(run, ctx, "expand::Expander::escape", fam, label)
     if es is not None:
         ce = H.canon(es["body"])
